@@ -18,6 +18,16 @@
 (* creator / instance goroutine); its invariants are evaluated after every *)
 (* line.  A call whose tokens disagree, or carry a value already sent for  *)
 (* another call, has no action.                                            *)
+(* Ammo objects (Isolation: AAcquire / ADiscard / ARelease; the provider   *)
+(* is wrapped: Acquire{gid,obj,name} is logged after the object was handed *)
+(* out, Release{gid,obj} before it is given back): `held` is the set of    *)
+(* [obj, gid, name] between Acquire and Release.  An object that is held   *)
+(* cannot be acquired again; a Release needs the holder's own Acquire (a   *)
+(* second Release has no action); a gun can only shoot the object its      *)
+(* goroutine holds, under the name it was acquired with; with uniquely     *)
+(* tagged lines and passes: 1 a name is acquired at most once; at PoolDone *)
+(* nothing is held.  Discarded{gid}: the engine's sample for a shot it     *)
+(* skipped -- by a goroutine that is not in Shoot.                          *)
 (* Samples (Isolation: SReport / AggWrite at the level of content; sample  *)
 (* identities and the pool are not observable): within one Shoot the gun   *)
 (* hands over exactly one sample per step, in step order (a second Report  *)
@@ -34,8 +44,11 @@ VARIABLES l,
           pos,      \* gun -> samples handed over in the shot in progress
           nshots,   \* gun -> Shoot calls in this run
           prof,     \* [perinst, klo, khi]: rps-per-instance run and the tokens of the configured profile
+          held,     \* set of [obj, gid, name]: ammo objects between Acquire and Release
+          seen,     \* names acquired so far in this run (uniq runs)
+          uniq,     \* every line of the file has its own tag and is delivered once
           handed    \* bag: content [tag, code, err] -> handed over and not yet written by the aggregator
-tx == <<plan, exp, pos, handed, nshots, prof>>
+tx == <<plan, exp, pos, handed, nshots, prof, held, seen, uniq>>
 
 Trace == ndJsonDeserialize(IOEnv.VERIF_TRACE)
 Ev == Trace[l]
@@ -45,6 +58,7 @@ EmptyBag == [x \in {} |-> 0]
 TraceInit == /\ l = 1 /\ TLCSet(1, 1) /\ Init
              /\ plan = <<>> /\ exp = [g \in Guns |-> <<>>] /\ pos = [g \in Guns |-> 0] /\ handed = EmptyBag
              /\ nshots = [g \in Guns |-> 0] /\ prof = [perinst |-> FALSE, klo |-> 0, khi |-> 0]
+             /\ held = {} /\ seen = {} /\ uniq = FALSE
 
 Quiet == \A g \in Guns : nShoot[g] = 0
 Stutter == UNCHANGED vars
@@ -53,10 +67,11 @@ TRun == /\ Ev.ev = "Run" /\ Quiet
         /\ pend' = {} /\ made' = {} /\ owners' = [g \in Guns |-> {}] /\ busy' = [i \in Insts |-> FALSE]
         /\ nShoot' = [g \in Guns |-> 0] /\ shooter' = [g \in Guns |-> {}] /\ cur' = [g \in Guns |-> "-"]
         /\ used' = {} /\ defs' = "T" /\ view' = [g \in Guns |-> "none"] /\ inCrit' = {} /\ sent' = {} /\ shots' = 0
-        /\ UNCHANGED <<svars, schvars>>
+        /\ UNCHANGED <<svars, schvars, avars>>
         /\ \A x \in DOMAIN handed : handed[x] = 0
         /\ plan' = Ev.steps /\ exp' = [g \in Guns |-> <<>>] /\ pos' = [g \in Guns |-> 0] /\ handed' = EmptyBag
         /\ nshots' = [g \in Guns |-> 0] /\ prof' = [perinst |-> Ev.perinst, klo |-> Ev.klo, khi |-> Ev.khi]
+        /\ held = {} /\ held' = {} /\ seen' = {} /\ uniq' = Ev.uniq
 TNewGun == Ev.ev = "NewGun" /\ Ev.gun \in Guns /\ NewGun(Ev.gid, Ev.gun) /\ UNCHANGED tx
 TBind == Ev.ev = "Bind" /\ Ev.ok /\ Ev.gun \in Guns /\ Ev.inst \in Insts /\ Bind(Ev.gid, Ev.inst, Ev.gun) /\ UNCHANGED tx
 TShootBegin == /\ Ev.ev = "ShootBegin" /\ Ev.gun \in Guns
@@ -66,7 +81,9 @@ TShootBegin == /\ Ev.ev = "ShootBegin" /\ Ev.gun \in Guns
                /\ exp' = [exp EXCEPT ![Ev.gun] = IF plan # <<>> THEN plan ELSE IF Ev.ammo = "" THEN <<"*">> ELSE <<Ev.ammo>>]
                /\ pos' = [pos EXCEPT ![Ev.gun] = 0]
                /\ nshots' = [nshots EXCEPT ![Ev.gun] = @ + 1]
-               /\ UNCHANGED <<plan, handed, prof>>
+               \* the gun shoots the object ITS goroutine holds, under the name it was acquired with
+               /\ Ev.obj = 0 \/ [obj |-> Ev.obj, gid |-> Ev.gid, name |-> Ev.ammo] \in held
+               /\ UNCHANGED <<plan, handed, prof, held, seen, uniq>>
 Agree(ts) == Len(ts) > 0 /\ \A j \in 1..Len(ts) : ts[j] = ts[1] /\ ts[1] \notin {"", "-"}
 \* the call carries the token of the ammo in Shoot on some gun ...
 RecvCarried(t) == \E g \in Guns : cur[g] = t /\ Send(g, t, t, defs, view, FALSE)
@@ -74,7 +91,7 @@ RecvCarried(t) == \E g \in Guns : cur[g] = t /\ Send(g, t, t, defs, view, FALSE)
 RecvDrawn(t) == /\ \E g \in Guns : nShoot[g] > 0 /\ cur[g] = "" /\ g \notin inCrit
                 /\ t \notin used
                 /\ used' = used \cup {t}
-                /\ UNCHANGED <<pend, made, owners, busy, nShoot, shooter, cur, defs, view, inCrit, sent, shots, svars, schvars>>
+                /\ UNCHANGED <<pend, made, owners, busy, nShoot, shooter, cur, defs, view, inCrit, sent, shots, svars, schvars, avars>>
 TRecv == Ev.ev = "Recv" /\ Agree(Ev.toks) /\ (RecvCarried(Ev.toks[1]) \/ RecvDrawn(Ev.toks[1])) /\ UNCHANGED tx
 Content(e) == [tag |-> e.tag, code |-> e.code, err |-> e.err]
 BagAdd(b, x) == IF x \in DOMAIN b THEN [b EXCEPT ![x] = @ + 1] ELSE b @@ (x :> 1)
@@ -84,17 +101,37 @@ TSample == /\ Ev.ev = "Sample"
                                 /\ pos[g] < Len(exp[g]) /\ exp[g][pos[g] + 1] \in {Ev.base, "*"}
                                 /\ pos' = [pos EXCEPT ![g] = @ + 1]
            /\ handed' = BagAdd(handed, Content(Ev))
-           /\ UNCHANGED <<vars, plan, exp, nshots, prof>>
+           /\ UNCHANGED <<vars, plan, exp, nshots, prof, held, seen, uniq>>
 \* the aggregator wrote one of the samples it was handed, as it was handed (AggWrite)
 TPhout == /\ Ev.ev = "Phout" /\ ~Ev.bad /\ Quiet
           /\ Content(Ev) \in DOMAIN handed /\ handed[Content(Ev)] > 0
           /\ handed' = [handed EXCEPT ![Content(Ev)] = @ - 1]
-          /\ UNCHANGED <<vars, plan, exp, pos, nshots, prof>>
+          /\ UNCHANGED <<vars, plan, exp, pos, nshots, prof, held, seen, uniq>>
+\* provider.Acquire handed the object out to this goroutine (AAcquire)
+TAcquire == /\ Ev.ev = "Acquire"
+            /\ Ev.obj = 0 \/ \A h \in held : h.obj # Ev.obj /\ h.gid # Ev.gid      \* nobody holds it; the goroutine holds nothing
+            /\ (uniq /\ Ev.name # "") => Ev.name \notin seen                          \* a line is delivered once
+            /\ held' = IF Ev.obj = 0 THEN held ELSE held \cup {[obj |-> Ev.obj, gid |-> Ev.gid, name |-> Ev.name]}
+            /\ seen' = IF uniq THEN seen \cup {Ev.name} ELSE seen
+            /\ UNCHANGED <<vars, plan, exp, pos, handed, nshots, prof, uniq>>
+\* the ONE Release of what this goroutine acquired (ARelease / ADiscard); not while its gun is still shooting it
+TRelease == /\ Ev.ev = "Release"
+            /\ Ev.obj = 0 \/ \E h \in held : h.obj = Ev.obj /\ h.gid = Ev.gid
+            /\ \A g \in Guns : Ev.gid \in shooter[g] => nShoot[g] = 0
+            /\ held' = {h \in held : h.obj # Ev.obj \/ Ev.obj = 0}
+            /\ UNCHANGED <<vars, plan, exp, pos, handed, nshots, prof, seen, uniq>>
+\* discard_overflow: the engine skipped the shot and reported its own sample (which phout writes like any other)
+TDiscarded == /\ Ev.ev = "Discarded"
+              \* (whether the skipped ammo is given back before or after this report is not prescribed)
+              /\ \A g \in Guns : Ev.gid \in shooter[g] => nShoot[g] = 0
+              /\ handed' = BagAdd(handed, Content(Ev))
+              /\ UNCHANGED <<vars, plan, exp, pos, nshots, prof, held, seen, uniq>>
 TShootEnd == /\ Ev.ev = "ShootEnd" /\ Ev.gun \in Guns /\ Ev.gid \in shooter[Ev.gun]
              /\ pos[Ev.gun] >= 1                       \* a shot hands over at least the sample of its first step
              /\ \E i \in owners[Ev.gun] : ShootEnd(i, Ev.gun)
              /\ UNCHANGED tx
 TEnd == /\ Ev.ev \in {"PoolDone", "RunEnd"} /\ Quiet /\ Stutter /\ UNCHANGED tx
+        /\ held = {}                                     \* every Acquire had its Release
         /\ Ev.ev = "RunEnd" => \A x \in DOMAIN handed : handed[x] = 0
         \* rps-per-instance: every instance owns its schedule, so every bound gun shot the FULL profile
         \* (Isolation!FullProfile; klo..khi computed from the configured rps list by StartupMath)
@@ -102,7 +139,7 @@ TEnd == /\ Ev.ev \in {"PoolDone", "RunEnd"} /\ Quiet /\ Stutter /\ UNCHANGED tx
                \A g \in Guns : owners[g] # {} => (nshots[g] >= prof.klo /\ nshots[g] <= prof.khi)
 
 TraceNext == /\ l <= Len(Trace)
-             /\ (TRun \/ TNewGun \/ TBind \/ TShootBegin \/ TRecv \/ TSample \/ TPhout \/ TShootEnd \/ TEnd)
+             /\ (TRun \/ TNewGun \/ TBind \/ TShootBegin \/ TRecv \/ TSample \/ TPhout \/ TShootEnd \/ TEnd \/ TAcquire \/ TRelease \/ TDiscarded)
              /\ l' = l + 1
              /\ Mark
 
